@@ -571,10 +571,55 @@ Fixpoint read_attr (fuel : nat) (w : world) (d : derived) (i : nat) (a : Z) : de
                         let (d, mods) := acc in
                         if negb (Z.eqb (m_tgt_attr (sp_mod s)) a) then (d, mods)
                         else
-                          let (d, ov) := read_attr fuel w d (sp_item s) (m_src_attr (sp_mod s)) in
-                          match ov with
+                          (* modifier.get_modification(affector_item): operator and value *)
+                          let (d, omod) :=
+                              if Z.eqb (m_py (sp_mod s)) 0 then
+                                let (d, ov) := read_attr fuel w d (sp_item s) (m_src_attr (sp_mod s)) in
+                                (d, match ov with Some v => Some (m_op (sp_mod s), v) | None => None end)
+                              else if Z.eqb (m_py (sp_mod s)) 1 then
+                                (* PropulsionModuleVelocityBoostModifier: 1 + speed_factor * thrust / ship mass / 100 *)
+                                match (match item_fit w (sp_item s) with
+                                       | Some pf => match get_fit w pf with Some ft => f_ship ft | None => None end
+                                       | None => None end) with
+                                | None => (d, None)
+                                | Some ship =>
+                                  let (d, om) := read_attr fuel w d ship AttrId_mass in
+                                  match om with
+                                  | None => (d, None)
+                                  | Some mass =>
+                                    let (d, osf) := read_attr fuel w d (sp_item s) AttrId_speed_factor in
+                                    match osf with
+                                    | None => (d, None)
+                                    | Some sf =>
+                                      let (d, oth) := read_attr fuel w d (sp_item s) AttrId_speed_boost_factor in
+                                      match oth with
+                                      | None => (d, None)
+                                      | Some th =>
+                                        if Qeq_bool mass 0 then (d, None)     (* logged, skipped *)
+                                        else (d, Some (ModOperator_post_mul, Qred (1 + sf * th / mass / 100)))
+                                      end
+                                    end
+                                  end
+                                end
+                              else if Z.eqb (m_py (sp_mod s)) 2 then
+                                (* AncillaryRepAmountModifier: charged multiplier when nanite paste is loaded, else 1 *)
+                                match get_item w (sp_item s) with
+                                | None => (d, None)
+                                | Some ai =>
+                                  let paste := match i_charge ai with
+                                               | Some c => match get_item w c with
+                                                           | Some ci => Z.eqb (i_tid ci) TypeId_nanite_repair_paste
+                                                           | None => false end
+                                               | None => false end in
+                                  if paste then
+                                    let (d, ov) := read_attr fuel w d (sp_item s) AttrId_charged_armor_dmg_mult in
+                                    (d, match ov with Some v => Some (ModOperator_post_mul_immune, v) | None => None end)
+                                  else (d, Some (ModOperator_post_mul_immune, 1))
+                                end
+                              else (d, None) in
+                          match omod with
                           | None => (d, mods)     (* ModificationCalculationError *)
-                          | Some v =>
+                          | Some (mop, v) =>
                             let (d, resist) :=
                                 match sp_resist s with
                                 | None => (d, 1)
@@ -587,7 +632,7 @@ Fixpoint read_attr (fuel : nat) (w : world) (d : derived) (i : nat) (a : Z) : de
                                     (d, match orv with Some r => r | None => 1 end)
                                   end
                                 end in
-                            match al_get zeqb NORMALIZATION_MAP (m_op (sp_mod s)) with
+                            match al_get zeqb NORMALIZATION_MAP mop with
                             | None => (d, mods)   (* unknown operator: logged, skipped *)
                             | Some ne =>
                               match normalize ne v with
@@ -603,8 +648,8 @@ Fixpoint read_attr (fuel : nat) (w : world) (d : derived) (i : nat) (a : Z) : de
                                                   | Some cat => mem zeqb PENALTY_IMMUNE_CATEGORY_IDS cat
                                                   | None => false end in
                                     let penal := negb (am_stackable meta) && negb immune
-                                                 && mem zeqb PENALIZABLE_OPERATORS (m_op (sp_mod s)) in
-                                    (d, mods ++ [mkGmod (m_op (sp_mod s)) (Qred (nv * resist)) penal
+                                                 && mem zeqb PENALIZABLE_OPERATORS mop in
+                                    (d, mods ++ [mkGmod mop (Qred (nv * resist)) penal
                                                         (m_aggmode (sp_mod s)) (m_aggkey (sp_mod s))])
                                   end
                                 end
